@@ -12,7 +12,10 @@
     feature arrays afterwards are compared with spec/FeatureSpec.v evaluated on
     the schedule rows [rows w] only.
 
-    [EarliestStartTimeObserver] is the REPAIRED one (fix-C11-earliest-start). *)
+    [EarliestStartTimeObserver] is the REPAIRED one (fix-C11-earliest-start);
+    RemainingOperations / IsCompleted initialise by counting the dispatcher's
+    unscheduled operations (repo commit 196fa58), Duration's job sums likewise
+    (19e9d43). *)
 From JSL Require Import Base Instance Dstate Filters World Observers Feasible Derived DispatchFun Inv Run Replay
      FeatureObservers FeatureSpec FeatureBase FeatureSimple FeatureProofs FeatureEst FeatureComposite FeatureMachines FeatureCompletedOps FeatureCompletedMach.
 
